@@ -8,12 +8,16 @@ import (
 	"io/ioutil"
 	"log"
 	"path/filepath"
+	"regexp"
 	"runtime"
+	"strings"
 	"time"
 
 	"verifharness/pkg/gqlty"
 	"verifharness/pkg/vh"
 )
+
+var thunderFrame = regexp.MustCompile(`github\.com/samsarahq/thunder/([A-Za-z0-9_/]+\.[A-Za-z0-9_.()*]+)\(`)
 
 func buildCases(o *vh.Opts) []Case {
 	var cases []Case
@@ -126,7 +130,16 @@ func main() {
 			run.Hist("origin:" + c.Origin)
 		}
 		for _, f := range res.Findings {
-			run.Fail(idx, f.Sig, f.Detail, c)
+			sig := f.Sig
+			if sig == "process-died" {
+				// name the thunder function on top of the crashing goroutine's stack
+				if m := thunderFrame.FindStringSubmatch(f.Detail); m != nil {
+					sig += ":" + m[1]
+				} else if strings.Contains(f.Detail, "stack overflow") || strings.Contains(f.Detail, "goroutine stack exceeds") {
+					sig += ":stack-overflow"
+				}
+			}
+			run.Fail(idx, sig, f.Detail, c)
 		}
 		nontrivial := true
 		key := c.Stream + "|" + c.QueryText() + "|" + c.Vars + "|" + c.Body + "|" + c.Target + c.When + fmt.Sprint(c.Script)
